@@ -159,6 +159,12 @@ def do_check(ctx, plug):
       failures += srch.get("failures", [])
     except Exception as e:
       broken.append(dict(kind="search", what=f"searcher crashed: {type(e).__name__}: {e}", detail=traceback.format_exc()[-2500:]))
+      if hints:   # the crash may come from re-evaluating a disagreeing correspondence case: still look for a failing input without the hints
+        try:
+          srch = plug.search(ctx, [], True) or srch
+          failures += srch.get("failures", [])
+        except Exception as e2:
+          broken.append(dict(kind="search", what=f"searcher crashed again without hints: {type(e2).__name__}: {e2}", detail=traceback.format_exc()[-2500:]))
 
   # 6. decide
   violations, exit_code = 0, 0
